@@ -28,7 +28,10 @@ type ownSpec struct {
 	// negotiation helpers stay ours); only takesOwnership entries, dynamic
 	// handler calls, stores, returns and releases count.
 	listedTransfersOnly bool
-	depth               int
+	// borrows: callees (keys, wildcard allowed) that only look at the handle: passing it to them is never a
+	// hand-over (connection gater hooks, loggers).
+	borrows []string
+	depth   int
 }
 
 type ownSummary struct {
@@ -138,6 +141,12 @@ func (hs *handleSet) is(v ssa.Value) bool {
 			return true
 		}
 		switch x := v.(type) {
+		case *ssa.Parameter:
+			// inside a helper the path search walked into, a parameter is the caller's argument (see frameArgs)
+			if a, ok := frameArgs[x]; ok {
+				return walk(a)
+			}
+			return false
 		case *ssa.ChangeInterface:
 			return walk(x.X)
 		case *ssa.MakeInterface:
@@ -318,6 +327,11 @@ func (o *ownCtx) consumes(fn *ssa.Function, in ssa.Instruction, hs *handleSet, d
 			return false, ""
 		}
 		k := calleeKey(x)
+		for _, bk := range o.spec.borrows {
+			if keyMatch(k, bk) {
+				return false, ""
+			}
+		}
 		if _, isGo := in.(*ssa.Go); isGo {
 			return true, "handed to a goroutine"
 		}
